@@ -29,7 +29,7 @@ Spec == Init /\ [][Next]_tid
 
 Documented == {"SyntaxError", "RankError", "AxisSizeError", "SemanticError", "OperationNotSupportedError", "BackendResolutionError", "ValueError", "TypeError"}
 Values     == {"ok", "True", "False"}
-MustReject == {"dim_changed", "dim_added", "tensor_removed", "tensor_added",
+MustReject == {"dim_changed", "dim_zero", "dim_added", "tensor_removed", "tensor_added",
                (* violations of an operation's stated bracket / axis rules *)
                "dot_axis_in_three_inputs", "sort_with_two_brackets", "coordinate_count_mismatch",
                (* a per-repetition size vector whose number of entries contradicts the rank of the tensor *)
